@@ -41,11 +41,11 @@ FLOOR = {"sum:arity>1": 1, "cc:TorchCPTLayer": 1, "cc:fold>1:TorchCategoricalLay
 
 
 def plan(tier, seed):
-    n = 6 if tier == "quick" else 90
+    n = 6 if tier == "quick" else 100
     kinds = ["rg-cp", "rg-cpt", "rg-tucker", "gen-hadamard", "gen-kronecker", "onehot", "sparse", "gen-mixing", "gen-shared", "branches"]
     cases = [{"kind": kinds[k % len(kinds)], "k": k, "seed": seed, "nseeds": 3 if tier == "quick" else 12} for k in range(n * len(kinds) // 2)]
     # continuous (and mixed) circuits: cell frequencies against grid quadrature of the circuit density
-    cases += [{"kind": "gauss", "k": 20000 + k, "seed": seed, "nseeds": 2 if tier == "quick" else 5} for k in range(8 if tier == "quick" else 120)]
+    cases += [{"kind": "gauss", "k": 20000 + k, "seed": seed, "nseeds": 2 if tier == "quick" else 3} for k in range(8 if tier == "quick" else 60)]
     # the hand-built DAG family is cheap: more of it
     cases += [{"kind": "branches", "k": 10000 + k, "seed": seed, "nseeds": 2 if tier == "quick" else 6} for k in range(8 if tier == "quick" else 150)]
     return cases
